@@ -319,14 +319,29 @@ def cal_helicity_angle(
                     ret[i]["ang"], xi = EulerAngle.angle_zx_zzz_getx(
                         set_z[i.core], set_x[i.core], zi
                     )
+                    # rotation from the frame of i.core to the decay plane frame
+                    # (the same Euler angles as used in the amplitude)
+                    ang3 = ret[i]["ang"]
+                    r_plane = (
+                        SU2M.Rotation_z(ang3["gamma"])
+                        * SU2M.Rotation_y(ang3["beta"])
+                        * SU2M.Rotation_z(ang3["alpha"])
+                    )
+                    z_plane = Vector3.cross_unit(zi[0] - zi[1], zi[1] - zi[2])
                     for j, x, z, p_rest_i in zip(i.outs, xi, zi, p_rest):
                         ret[i][j] = {}
                         ret[i][j]["x"] = x
                         ret[i][j]["z"] = z
+                        set_x[j] = x
                         Bp = SU2M.Boost_z_from_p(p_rest_i)
                         b_matrix[j] = Bp
-                        r = SU2M.Rotation_y(ang["beta"]) * SU2M.Rotation_z(
-                            ang["alpha"]
+                        # rotation from the decay plane frame to the helicity frame of j
+                        ang_j = EulerAngle.angle_zx_zx(z_plane, xi[2], z, x)
+                        r = (
+                            SU2M.Rotation_z(ang_j["gamma"])
+                            * SU2M.Rotation_y(ang_j["beta"])
+                            * SU2M.Rotation_z(ang_j["alpha"])
+                            * r_plane
                         )
                         if i.core in r_matrix:
                             r_matrix[j] = (
